@@ -68,8 +68,12 @@ namespace
       case tree_type::PRED_SUBX_ANY:
 	{
 	  assert (t.m_children.size () == 1);
+	  // Sub-expression context has a scope of its own.  Names bound
+	  // inside must not be visible outside: the state that holds
+	  // their values only lives while the assertion is evaluated.
+	  bindings scope {bn};
 	  auto origin = std::make_shared <op_origin> (l);
-	  auto op = build_exec (t.child (0), l, rdv_ll, origin, bn, up);
+	  auto op = build_exec (t.child (0), l, rdv_ll, origin, scope, up);
 	  return std::make_unique <pred_subx_any> (op, origin);
 	}
 
